@@ -437,7 +437,7 @@ impl Prop for C18 {
 
     fn runs(tier: Tier) -> u64 {
         match tier {
-            Tier::Quick => 130_000,
+            Tier::Quick => 91_000,
             Tier::Thorough => 6_500_000,
         }
     }
@@ -523,7 +523,7 @@ impl Prop for C18 {
             script.push(Forced { at: r.below(6), raw: Hx(super::c19::fault_raw(kind, &mut r)), kind: kind.into() });
         }
         // thread scenario: thorough tier, one run in 16
-        let (threads, schedule) = if tier == Tier::Thorough && run % 16 == 5 {
+        let (threads, schedule) = if (tier == Tier::Thorough && run % 16 == 5) || run % 128 == 37 {
             let k = 2 + r.below(2) as usize;
             let len = 12 + r.below(30) as usize;
             (k, (0..len).map(|_| r.below(k as u64) as u8).collect())
@@ -654,10 +654,9 @@ impl Prop for C18 {
         for l in LAWS {
             v.push(format!("law.{}", l));
         }
-        if tier == Tier::Thorough {
-            v.push("thread.scenarios".into());
-            v.push("thread.switches".into());
-        }
+        let _ = tier;
+        v.push("thread.scenarios".into());
+        v.push("thread.switches".into());
         v
     }
     fn components() -> Value {
@@ -914,7 +913,7 @@ fn exec_history(case: &Case, st: &mut Stats) -> Option<Viol> {
                     }
                 }
                 // bulk form: reproducible from the seed, and identical to the bulk draw of a fresh twin
-                let nb = match (seed.0 >> 8) % 32 { 0 => 33usize, 1 => 257, 2 => 4096, 3 => 5000, 4 => 8192, 5 => 65_536, 6 => 70_001, 7 => 131_072, _ => 0 };
+                let nb = match (seed.0 >> 8) % 64 { 0 => 33usize, 1 => 257, 2 => 4096, 3 => 5000, 4 => 8192, 5 => 65_536, 6 => 70_001, 7 => 131_072, _ => 0 };
                 let finite_model = models.len() == 1 && models[0].iter().all(|x| x.is_finite());
                 if nb > 0 && a0.end.is_empty() && finite_model {
                     st.inc("compare.bulk");
